@@ -61,6 +61,13 @@ def cases_for_shape(sh, rng, small):
     if a_small(E, small) and d <= 3:
         for idx in itertools.product(*[range(n + 3) for n in sh]):
             cs.append("getmut %s %s" % (fmt(sh), fmt(idx)))
+    # coordinates at the far end of usize (the flat position must not even be computed before the bounds are checked)
+    for big in (2**63 - 1, 2**63, 2**64 - 2, 2**64 - 1):
+        for ax in range(d):
+            for rest in (0, 1):
+                idx = [min(rest * (n - 1), n - 1) for n in sh]; idx[ax] = big
+                cs.append("get %s %s" % (fmt(sh), fmt(idx)))
+                cs.append("getmut %s %s" % (fmt(sh), fmt(idx)))
     cs.append("getmut %s %s" % (fmt(sh), fmt(sh[:-1])))
     cs.append("getmut %s %s" % (fmt(sh), fmt(list(sh) + [0])))
     cs.append("get %s %s" % (fmt(sh), fmt(sh[:-1])))            # too short
